@@ -151,6 +151,10 @@ pub struct Session<'c, W: WorldDriver> {
     pub touched: BTreeSet<(usize, usize)>,
     pub ticks: Vec<[u64; 3]>,
     pub injected_fired: bool,
+    /// failures of oracles that do not invalidate the model (e.g. the hook-based comparison of a
+    /// clone's bookkeeping): the case continues so that other properties still get to see their
+    /// own violation; they are merged into the case's verdict at the end
+    pub deferred: Vec<Fail>,
 }
 
 pub const OVERFLOW_SLOT: &str = "slot version overflow";
@@ -233,6 +237,7 @@ impl<'c, W: WorldDriver> Session<'c, W> {
             touched: BTreeSet::new(),
             ticks: Vec::new(),
             injected_fired: false,
+            deferred: Vec::new(),
         };
         let w = match catch(|| W::construct(ctor, &caps)) {
             Ok(w) => w,
@@ -395,6 +400,11 @@ impl<'c, W: WorldDriver> Session<'c, W> {
             }
         }
         out.fail = result.err();
+        if !s.deferred.is_empty() {
+            let mut all: Vec<Fail> = out.fail.take().into_iter().collect();
+            all.extend(std::mem::take(&mut s.deferred));
+            out.fail = Some(Fail::merge(all));
+        }
         out.labels = std::mem::take(&mut s.labels);
         out.counters = std::mem::take(&mut s.counters);
         out.trace = s.trace;
@@ -600,6 +610,13 @@ impl<'c, W: WorldDriver> Session<'c, W> {
                 }
                 if raw_arch_id(raw) != self.infos[a].id {
                     return Err(self.fail(&["C14", "C08"], "create-wrong-arch-id", format!("handle {:?} created by {} (id {}) carries archetype id {}", raw, self.infos[a].name, self.infos[a].id, raw_arch_id(raw))));
+                }
+                // handles of distinct create calls must also be unequal under `==` (EntityAny's
+                // PartialEq), across archetypes too
+                let new_any = any(raw);
+                if let Some(h) = self.sims[si].handles.iter().find(|h| h.raw != raw && any(h.raw) == new_any) {
+                    let other = h.raw;
+                    return Err(self.fail(&["C08", "C14"], "handles-compare-equal", format!("create on {} returned handle {:?} which compares equal (==) to the earlier, different handle {:?}", self.infos[a].name, raw, other)));
                 }
                 let dup = self.sims[si].archs[a].issued.contains(&raw);
                 if dup {
@@ -1613,7 +1630,10 @@ impl<'c, W: WorldDriver> Session<'c, W> {
         for a in 0..self.infos.len() {
             let (d1, d2) = (W::dump(&self.sims[si].w, a), W::dump(&self.sims[ni].w, a));
             if d1 != d2 {
-                return Err(self.fail(&["C13"], "clone-bookkeeping", format!("clone of {} does not carry the original's bookkeeping (generations, free list, version): original version {} free_head {:#x} slots {:x?}; clone version {} free_head {:#x} slots {:x?}", self.infos[a].name, d1.version, d1.free_head, &d1.slots[..d1.slots.len().min(16)], d2.version, d2.free_head, &d2.slots[..d2.slots.len().min(16)])));
+                let f = (self.fail(&["C13"], "clone-bookkeeping", format!("clone of {} does not carry the original's bookkeeping (generations, free list, version): original version {} free_head {:#x} slots {:x?}; clone version {} free_head {:#x} slots {:x?}", self.infos[a].name, d1.version, d1.free_head, &d1.slots[..d1.slots.len().min(16)], d2.version, d2.free_head, &d2.slots[..d2.slots.len().min(16)])));
+                if self.deferred.is_empty() {
+                    self.deferred.push(f);
+                }
             }
         }
         self.extra_tag = Some("C13");
@@ -1622,7 +1642,26 @@ impl<'c, W: WorldDriver> Session<'c, W> {
         let r = self.probe_sim(ni, Intensity::Full);
         self.rot = saved;
         self.extra_tag = None;
-        r
+        r?;
+        // behavioural twin step (every other clone): two observationally identical worlds must
+        // answer the same operation identically; here: a creation in the same archetype returns
+        // the same handle in the original and in the clone
+        if self.step % 2 == 0 {
+            let a = self.step % self.infos.len();
+            let n1 = self.sims[si].handles.len();
+            let n2 = self.sims[ni].handles.len();
+            self.do_create(si, a, CreatePath::WCreate)?;
+            self.do_create(ni, a, CreatePath::ACreate)?;
+            if self.sims[si].handles.len() == n1 + 1 && self.sims[ni].handles.len() == n2 + 1 {
+                let (h1, h2) = (self.sims[si].handles[n1].raw, self.sims[ni].handles[n2].raw);
+                let (c1, c2) = (W::capacity(&self.sims[si].w, a), W::capacity(&self.sims[ni].w, a));
+                if h1 != h2 || c1 != c2 {
+                    return Err(self.fail(&["C13"], "clone-diverges-on-identical-op", format!("right after cloning, create on {} returns {:?} (capacity {}) in the original and {:?} (capacity {}) in the clone", self.infos[a].name, h1, c1, h2, c2)));
+                }
+                self.label("clone_twin_create");
+            }
+        }
+        Ok(())
     }
 
     pub fn do_preset(&mut self, si: usize, a: usize, d: u8, spread: u8) -> R {
